@@ -631,3 +631,426 @@ Proof.
     intros S. apply andb_prop in S. destruct S as [S _].
     destruct (parses_complete d OK S) as ((l & El) & _). congruence.
 Qed.
+
+(** * Writes: success, length, byte-ness *)
+
+Lemma be_bytes_length n v : length (be_bytes n v) = n.
+Proof. revert v; induction n as [|n IH]; intros v; cbn [be_bytes]; [reflexivity|]. rewrite app_length, IH. cbn. lia. Qed.
+
+Lemma be_bytes_ok n v : bytes_ok (be_bytes n v) = true.
+Proof.
+  revert v; induction n as [|n IH]; intros v; cbn [be_bytes]; [reflexivity|].
+  rewrite bytes_ok_app, IH. cbn [bytes_ok forallb andb]. unfold byte_ok. lia.
+Qed.
+
+Lemma byte_lo_le_hi r : byte_lo r <= byte_hi r.
+Proof. unfold byte_lo, byte_hi, r_end, r_start. lia. Qed.
+
+Lemma blen_lane_write v r x : byte_hi r <= blen v -> blen (lane_write v r x) = blen v.
+Proof.
+  intros H. pose proof (byte_lo_le_hi r). unfold lane_write, blen in *.
+  rewrite !app_length, be_bytes_length, firstn_length, skipn_length. lia.
+Qed.
+
+Lemma bytes_ok_lane_write v r x : bytes_ok v = true -> bytes_ok (lane_write v r x) = true.
+Proof.
+  intros H. unfold lane_write. rewrite !bytes_ok_app, be_bytes_ok, bytes_ok_firstn, bytes_ok_skipn by exact H.
+  reflexivity.
+Qed.
+
+Lemma wr_ok v r x :
+  (size_bytes r <=? LANE_BYTES) = true -> byte_hi r <= blen v -> wr v r x = Ok (lane_write v r x).
+Proof. intros H1 H2. unfold wr. rewrite H1. replace (byte_hi r <=? blen v) with true by lia. reflexivity. Qed.
+
+Lemma wr_inv v r x v' : wr v r x = Ok v' -> blen v' = blen v /\ (bytes_ok v = true -> bytes_ok v' = true).
+Proof.
+  unfold wr. destruct (negb (size_bytes r <=? LANE_BYTES)); [discriminate|].
+  destruct (negb (byte_hi r <=? blen v)) eqn:E; [discriminate|]. intros H. inversion H; subst v'.
+  split; [apply blen_lane_write; lia|apply bytes_ok_lane_write].
+Qed.
+
+Lemma wr_no_err v r x e : wr v r x <> Err e.
+Proof. unfold wr. destruct (negb _); [discriminate|]. destruct (negb _); discriminate. Qed.
+
+(** every range fits the lane and ends within the first [n] bytes *)
+Definition writes_within (n : N) (ws : list (rng * N)) : bool :=
+  forallb (fun w => (size_bytes (fst w) <=? LANE_BYTES) && (byte_hi (fst w) <=? n)) ws.
+
+Lemma wr_all_ok ws : forall v n,
+  writes_within n ws = true -> n <= blen v ->
+  exists v', wr_all v ws = Ok v' /\ blen v' = blen v /\ (bytes_ok v = true -> bytes_ok v' = true).
+Proof.
+  induction ws as [|[r x] t IH]; intros v n W H; cbn [wr_all].
+  - exists v. auto.
+  - cbn [writes_within forallb fst] in W. apply andb_prop in W. destruct W as [W1 W2].
+    apply andb_prop in W1. destruct W1 as [W1a W1b].
+    rewrite wr_ok by (try exact W1a; lia). cbn [obind].
+    destruct (IH (lane_write v r x) n W2) as (v' & E & L & K).
+    { rewrite blen_lane_write by lia. exact H. }
+    exists v'. split; [exact E|]. split.
+    + rewrite L. apply blen_lane_write. lia.
+    + intros Hv. apply K, bytes_ok_lane_write, Hv.
+Qed.
+
+Lemma wr_all_inv ws : forall v v',
+  wr_all v ws = Ok v' -> blen v' = blen v /\ (bytes_ok v = true -> bytes_ok v' = true).
+Proof.
+  induction ws as [|[r x] t IH]; intros v v' H; cbn [wr_all] in H.
+  - inversion H. auto.
+  - destruct (wr v r x) as [v1| |] eqn:E; cbn [obind] in H; try discriminate.
+    destruct (wr_inv _ _ _ _ E) as [L1 K1]. destruct (IH _ _ H) as [L2 K2].
+    split; [congruence|auto].
+Qed.
+
+Lemma wr_all_no_err ws : forall v e, wr_all v ws <> Err e.
+Proof.
+  induction ws as [|[r x] t IH]; intros v e; cbn [wr_all]; [discriminate|].
+  destruct (wr v r x) as [v1|e1|s1] eqn:E; cbn [obind]; [apply IH| |discriminate].
+  exfalso. exact (wr_no_err _ _ _ _ E).
+Qed.
+
+Lemma blen_zeros n : blen (zeros n) = n.
+Proof. unfold blen, zeros. rewrite repeat_length. lia. Qed.
+Lemma bytes_ok_zeros n : bytes_ok (zeros n) = true.
+Proof. unfold zeros, bytes_ok. apply forallb_forall. intros x Hx. apply repeat_spec in Hx. subst. reflexivity. Qed.
+
+Lemma copy_into_inv b lo data b' :
+  copy_into b lo data = Ok b' ->
+  blen b' = blen b /\ (bytes_ok b = true -> bytes_ok data = true -> bytes_ok b' = true).
+Proof.
+  unfold copy_into. destruct (lo + blen data <=? blen b) eqn:E; [|discriminate].
+  intros H. inversion H; subst b'. split.
+  - unfold blen in *. rewrite !app_length, firstn_length, skipn_length. lia.
+  - intros H1 H2. rewrite !bytes_ok_app, H2, bytes_ok_firstn, bytes_ok_skipn by exact H1. reflexivity.
+Qed.
+Lemma copy_into_ok b lo data : lo + blen data <= blen b -> exists b', copy_into b lo data = Ok b'.
+Proof. intros H. unfold copy_into. replace (lo + blen data <=? blen b) with true by lia. eauto. Qed.
+Lemma copy_into_no_err b lo data e : copy_into b lo data <> Err e.
+Proof. unfold copy_into. destruct (_ <=? _); discriminate. Qed.
+
+(** * Sizes of the reply *)
+
+Lemma ip_size_cases a : ip_size a = 4 \/ ip_size a = 16.
+Proof. destruct a; [left|right]; reflexivity. Qed.
+
+Lemma reply_header_size_eq s d : reply_header_size s d = 28 + ip_size s + ip_size d.
+Proof. unfold reply_header_size. rewrite addr_hdr_size_eq. change CommonHeader_SIZE_BYTES with 12. lia. Qed.
+
+Lemma reply_header_size_bounds s d :
+  36 <= reply_header_size s d <= 60 /\ reply_header_size s d mod 4 = 0.
+Proof.
+  rewrite reply_header_size_eq. destruct (ip_size_cases s) as [-> | ->], (ip_size_cases d) as [-> | ->]; lia.
+Qed.
+
+Lemma pp_payload_size_bounds n hs :
+  hs <= 60 -> 8 <= pp_payload_size n hs /\ hs + pp_payload_size n hs <= 1232 /\
+  pp_payload_size n hs - 8 <= n.
+Proof.
+  intros H. unfold pp_payload_size. change SCMP_ERROR_MAX_PACKET_SIZE with 1232.
+  change ScmpParameterProblem_HEADER_SIZE_BYTES with 8. lia.
+Qed.
+
+Lemma encode_reply_header_len s d ps h :
+  encode_reply_header s d ps = Ok h -> blen h = reply_header_size s d.
+Proof.
+  unfold encode_reply_header. intros H.
+  destruct (wr_all _ (common_header_writes _ _ _ _ _)) as [b1| |] eqn:E1; cbn [obind] in H; try discriminate.
+  destruct (wr_all b1 _) as [b2| |] eqn:E2; cbn [obind] in H; try discriminate.
+  destruct (copy_into b2 _ _) as [b3| |] eqn:E3; cbn [obind] in H; try discriminate.
+  apply wr_all_inv in E1. apply wr_all_inv in E2. apply copy_into_inv in E3. apply copy_into_inv in H.
+  rewrite blen_zeros in E1. destruct E1, E2, E3, H. congruence.
+Qed.
+
+Lemma encode_param_problem_len s d c p off hs m :
+  encode_param_problem s d c p off hs = Ok m -> blen m = pp_payload_size (blen off) hs.
+Proof.
+  unfold encode_param_problem. intros H.
+  destruct (wr_all _ _) as [b1| |] eqn:E1; cbn [obind] in H; try discriminate.
+  destruct (index_range _ _ _) as [q| |] eqn:E2; cbn [obind] in H; try discriminate.
+  destruct (copy_into b1 _ _) as [b3| |] eqn:E3; cbn [obind] in H; try discriminate.
+  destruct (checksum _) as [ck| |] eqn:E4; cbn [obind] in H; try discriminate.
+  apply wr_all_inv in E1. apply copy_into_inv in E3. apply wr_inv in H.
+  rewrite blen_zeros in E1. destruct E1, E3, H. congruence.
+Qed.
+
+Lemma encode_scmp_reply_len s d c p off r :
+  encode_scmp_reply s d c p off = Ok r -> blen r <= SCMP_ERROR_MAX_PACKET_SIZE.
+Proof.
+  unfold encode_scmp_reply. intros H.
+  destruct (negb _); [discriminate|]. destruct (_ <? _); [discriminate|]. destruct (_ <? _); [discriminate|].
+  destruct (encode_reply_header s d _) as [h| |] eqn:E1; try discriminate.
+  destruct (encode_param_problem s d c p off _) as [m| |] eqn:E2; try discriminate.
+  inversion H; subst r. apply encode_reply_header_len in E1. apply encode_param_problem_len in E2.
+  pose proof (reply_header_size_bounds s d) as (B1 & B2).
+  pose proof (pp_payload_size_bounds (blen off) (reply_header_size s d) ltac:(lia)) as (P1 & P2 & P3).
+  change SCMP_ERROR_MAX_PACKET_SIZE with 1232. unfold blen in *. rewrite app_length. lia.
+Qed.
+
+Lemma reply_fits_lemma local d from r :
+  gateway_inbound local d from = Ok [Sent r] \/ (exists l1 l2, gateway_inbound local d from = Ok (l1 ++ Sent r :: l2)) ->
+  blen r <= SCMP_ERROR_MAX_PACKET_SIZE.
+Proof.
+  assert (G : forall l, gateway_inbound local d from = Ok l -> In (Sent r) l -> blen r <= SCMP_ERROR_MAX_PACKET_SIZE).
+  { unfold gateway_inbound. intros l H Hin.
+    destruct (inbound_datagram_check d from) as [v|e|s]; try discriminate.
+    - inversion H; subst l. destruct Hin as [Hin|[]]. discriminate.
+    - destruct (inbound_scmp_error e) as [[[c p] off]| |]; try discriminate.
+      destruct (encode_scmp_reply local from c p off) as [b| |] eqn:E; try discriminate.
+      + inversion H; subst l. destruct Hin as [Hin|[]]. inversion Hin; subst b.
+        eapply encode_scmp_reply_len; eauto.
+      + inversion H; subst l. destruct Hin. }
+  intros [H|(l1 & l2 & H)]; eapply G; eauto; [left; reflexivity|apply in_elt].
+Qed.
+
+(** * No panic *)
+
+Lemma hl_nf_no_panic d s : hl_nf d <> Panic s.
+Proof.
+  unfold hl_nf, f_path.
+  repeat match goal with |- context [if ?c then _ else _] => destruct c end; cbn [obind];
+  repeat match goal with |- context [if ?c then _ else _] => destruct c end; discriminate.
+Qed.
+
+Lemma check_nf_no_panic d ip s : check_nf d ip <> Panic s.
+Proof.
+  unfold check_nf. destruct (hl_nf d) eqn:E; try discriminate.
+  - destruct (decode_ip _ _); [|discriminate]. destruct (negb _); [discriminate|].
+    destruct (path_type_accepted _); discriminate.
+  - exfalso. exact (hl_nf_no_panic _ _ E).
+Qed.
+
+(** the error of a rejected datagram carries the datagram or the view, and the SCMP error
+    parameters are computed without panic *)
+Lemma scmp_error_of_check d ip e :
+  check_nf d ip = Err e ->
+  exists code ptr off, inbound_scmp_error e = Ok (code, ptr, off) /\ (off = d \/ off = f_view d).
+Proof.
+  unfold check_nf. destruct (hl_nf d) as [l|e0|s] eqn:E; try discriminate.
+  - destruct (hl_nf_ok d l E) as (L & _).
+    assert (S : inbound_scmp_error (InvalidSourceAddress (f_view d)) =
+                Ok (PP_CODE_INVALID_SOURCE, trunc 16 (byte_lo (src_host_rng (hat_size (f_sn d)) (hat_size (f_dn d)))), f_view d)).
+    { unfold inbound_scmp_error. rewrite (view_pkt_header d _ L). cbn [obind].
+      rewrite (hdr_src_type d _ L), (hdr_dst_type d _ L). reflexivity. }
+    destruct (decode_ip _ _) as [a|].
+    + destruct (negb _).
+      * intros H. inversion H; subst e. eauto 6.
+      * destruct (path_type_accepted _); [discriminate|]. intros H. inversion H; subst e.
+        unfold inbound_scmp_error. rewrite (view_pkt_header d _ L). cbn [obind]. eauto 6.
+    + intros H. inversion H; subst e. eauto 6.
+  - intros H. inversion H; subst e. cbn [inbound_scmp_error]. eauto 6.
+Qed.
+
+(** checksum arithmetic stays inside a u32 *)
+Lemma fold_checksum_le c : fold_checksum c <= c.
+Proof.
+  unfold fold_checksum. change 65535 with (N.ones 16). rewrite !N.shiftr_div_pow2, !N.land_ones. change (2 ^ 16) with 65536. lia.
+Qed.
+
+Lemma be_words_sum_le : forall (n : nat) b, (length b <= n)%nat -> bytes_ok b = true -> be_words_sum b <= 65536 * blen b.
+Proof.
+  induction n as [|n IH]; intros b Hn OK.
+  - destruct b; [cbn; lia|cbn in Hn; lia].
+  - destruct b as [|a [|c r]].
+    + cbn. lia.
+    + cbn [be_words_sum]. unfold bytes_ok in OK. cbn [forallb] in OK. apply andb_prop in OK. destruct OK as [Oa _].
+      unfold byte_ok, blen in *. cbn [length]. lia.
+    + cbn [be_words_sum]. unfold bytes_ok in OK. cbn [forallb] in OK.
+      apply andb_prop in OK. destruct OK as [Oa OK]. apply andb_prop in OK. destruct OK as [Oc OKr].
+      specialize (IH r ltac:(cbn [length] in Hn; lia) OKr). unfold byte_ok, blen in *. cbn [length]. lia.
+Qed.
+
+Lemma add_slice_le acc b : bytes_ok b = true -> add_slice acc b <= acc + 65536 * blen b.
+Proof.
+  intros OK. unfold add_slice. destruct b as [|x t]; [lia|].
+  pose proof (fold_checksum_le (be_words_sum (x :: t))).
+  pose proof (be_words_sum_le _ (x :: t) (le_n _) OK). lia.
+Qed.
+
+Lemma with_pseudoheader_bound dh sh buf :
+  bytes_ok dh = true -> bytes_ok sh = true -> bytes_ok buf = true ->
+  blen dh <= 16 -> blen sh <= 16 -> blen buf <= 1232 ->
+  with_pseudoheader IA_WILDCARD IA_WILDCARD dh sh PROTO_SCMP buf < 2 ^ 32.
+Proof.
+  intros O1 O2 O3 L1 L2 L3. unfold with_pseudoheader.
+  change (add_u64 (add_u64 0 IA_WILDCARD) IA_WILDCARD) with 0.
+  set (a1 := add_slice 0 dh). set (a2 := add_slice a1 sh).
+  pose proof (add_slice_le 0 dh O1). pose proof (add_slice_le a1 sh O2). fold a1 in H. fold a2 in H0.
+  assert (B3 : add_u32 (add_u32 a2 (trunc 32 (blen buf))) PROTO_SCMP <= a2 + 4 * 65535).
+  { unfold add_u32. change 65535 with (N.ones 16). rewrite !N.land_ones, !N.shiftr_div_pow2. change (N.ones 16) with 65535. change (2 ^ 16) with 65536. lia. }
+  set (a3 := add_u32 (add_u32 a2 (trunc 32 (blen buf))) PROTO_SCMP) in *.
+  pose proof (add_slice_le a3 buf O3). change (2 ^ 32) with 4294967296.
+  destruct CSUM_COVERS_MESSAGE; lia.
+Qed.
+
+Lemma ip_wf_octets a : ip_wf a = true -> blen (ip_octets a) = ip_size a /\ bytes_ok (ip_octets a) = true.
+Proof.
+  destruct a as [o|o]; cbn [ip_wf ip_octets ip_size]; intros H; apply andb_prop in H; destruct H as [H1 H2];
+    (split; [unfold blen; change HAT_IPV4_SIZE with 4; change HAT_IPV6_SIZE with 16; lia|exact H2]).
+Qed.
+
+Lemma host_rng_bytes s t :
+  byte_lo (dst_host_rng s t) = 28 /\ byte_lo (src_host_rng s t) = 28 + t.
+Proof.
+  unfold dst_host_rng, src_host_rng, rshift, rng_of_range, byte_lo, r_start. cbn [fst snd].
+  change AddressHeader_FIXED_SIZE_BITS with 128. change CommonHeader_SIZE_BYTES with 12. lia.
+Qed.
+
+Lemma encode_reply_header_total s d ps :
+  ip_wf s = true -> ip_wf d = true ->
+  exists h, encode_reply_header s d ps = Ok h /\ bytes_ok h = true.
+Proof.
+  intros Ws Wd. destruct (ip_wf_octets s Ws) as [Ls Os]. destruct (ip_wf_octets d Wd) as [Ld Od].
+  pose proof (reply_header_size_bounds s d) as (B1 & B2). pose proof (reply_header_size_eq s d) as Hs.
+  unfold encode_reply_header.
+  destruct (wr_all_ok (common_header_writes (trunc 8 (reply_header_size s d / 4)) PT_EMPTY (ip_nibble d) (ip_nibble s) (trunc 16 ps))
+                      (zeros (reply_header_size s d)) 12) as (b1 & E1 & L1 & K1);
+    [vm_compute; reflexivity|rewrite blen_zeros; lia|].
+  rewrite E1. cbn [obind]. rewrite blen_zeros in L1.
+  destruct (wr_all_ok (address_ia_writes IA_WILDCARD IA_WILDCARD) b1 28) as (b2 & E2 & L2 & K2);
+    [vm_compute; reflexivity|lia|].
+  rewrite E2. cbn [obind].
+  destruct (host_rng_bytes (ip_size s) (ip_size d)) as [-> ->].
+  destruct (copy_into_ok b2 28 (ip_octets d)) as (b3 & E3); [lia|]. rewrite E3. cbn [obind].
+  destruct (copy_into_inv _ _ _ _ E3) as [L3 K3].
+  destruct (copy_into_ok b3 (28 + ip_size d) (ip_octets s)) as (b4 & E4); [lia|]. rewrite E4.
+  destruct (copy_into_inv _ _ _ _ E4) as [L4 K4].
+  exists b4. split; [reflexivity|]. apply K4; [|exact Os]. apply K3; [|exact Od]. apply K2, K1, bytes_ok_zeros.
+Qed.
+
+Lemma encode_param_problem_total s d c p off hs :
+  ip_wf s = true -> ip_wf d = true -> bytes_ok off = true -> hs <= 60 ->
+  exists m, encode_param_problem s d c p off hs = Ok m.
+Proof.
+  intros Ws Wd Ooff Hhs. destruct (ip_wf_octets s Ws) as [Ls Os]. destruct (ip_wf_octets d Wd) as [Ld Od].
+  pose proof (pp_payload_size_bounds (blen off) hs Hhs) as (P1 & P2 & P3).
+  unfold encode_param_problem. set (ml := pp_payload_size (blen off) hs) in *.
+  destruct (wr_all_ok (param_problem_writes c p) (zeros ml) 8) as (b1 & E1 & L1 & K1);
+    [vm_compute; reflexivity|rewrite blen_zeros; lia|].
+  rewrite E1. cbn [obind]. rewrite blen_zeros in L1.
+  change ScmpParameterProblem_HEADER_SIZE_BYTES with 8.
+  unfold index_range. replace ((0 <=? ml - 8) && (ml - 8 <=? blen off)) with true by lia. cbn [obind].
+  assert (Lq : blen (sub off 0 (ml - 8)) = ml - 8) by (rewrite blen_sub by lia; lia).
+  destruct (copy_into_ok b1 8 (sub off 0 (ml - 8))) as (b2 & E2); [lia|]. rewrite E2. cbn [obind].
+  destruct (copy_into_inv _ _ _ _ E2) as [L2 K2].
+  assert (O2 : bytes_ok b2 = true) by (apply K2; [apply K1, bytes_ok_zeros|apply bytes_ok_sub, Ooff]).
+  unfold checksum.
+  pose proof (with_pseudoheader_bound (ip_octets d) (ip_octets s) b2 Od Os O2) as Hb.
+  destruct (ip_size_cases s), (ip_size_cases d).
+  all: specialize (Hb ltac:(lia) ltac:(lia) ltac:(lia)).
+  all: replace (2 ^ 32 <=? _) with false by lia; cbn [obind].
+  all: rewrite wr_ok by (try (vm_compute; reflexivity); change (byte_hi ScmpParameterProblem_CHECKSUM_RNG) with 4; lia); eauto.
+Qed.
+
+Lemma encode_scmp_reply_total s d c p off :
+  ip_wf s = true -> ip_wf d = true -> bytes_ok off = true ->
+  exists r, encode_scmp_reply s d c p off = Ok r.
+Proof.
+  intros Ws Wd Ooff. pose proof (reply_header_size_bounds s d) as (B1 & B2).
+  pose proof (pp_payload_size_bounds (blen off) (reply_header_size s d) ltac:(lia)) as (P1 & P2 & P3).
+  unfold encode_scmp_reply. change ScionHeader_MAX_SIZE_BYTES with 1020. change PACKET_BUF_SIZE with 9216.
+  replace (negb (reply_header_size s d mod 4 =? 0)) with false by lia.
+  replace (1020 <? reply_header_size s d) with false by lia.
+  replace (9216 <? _) with false by lia.
+  destruct (encode_reply_header_total s d (pp_payload_size (blen off) (reply_header_size s d)) Ws Wd) as (h & -> & _).
+  destruct (encode_param_problem_total s d c p off (reply_header_size s d) Ws Wd Ooff ltac:(lia)) as (m & ->).
+  eauto.
+Qed.
+
+(** a rejected datagram: exactly one reply, nothing dispatched; an accepted one: exactly one
+    dispatch, no reply; never a panic *)
+Lemma gateway_total local d from :
+  bytes_ok d = true -> ip_wf local = true -> ip_wf from = true ->
+  (exists v, inbound_datagram_check d from = Ok v /\ gateway_inbound local d from = Ok [Dispatched v]) \/
+  (exists e r, inbound_datagram_check d from = Err e /\ gateway_inbound local d from = Ok [Sent r]).
+Proof.
+  intros OK Wl Wf. unfold gateway_inbound. rewrite check_is_nf.
+  destruct (check_nf d from) as [v|e|s] eqn:E.
+  - left. eauto.
+  - right. destruct (scmp_error_of_check d from e E) as (c & p & off & -> & Hoff).
+    assert (Ooff : bytes_ok off = true).
+    { destruct Hoff as [-> | ->]; [exact OK|apply bytes_ok_sub, OK]. }
+    destruct (encode_scmp_reply_total local from c p off Wl Wf Ooff) as (r & ->). eauto.
+  - exfalso. exact (check_nf_no_panic _ _ _ E).
+Qed.
+
+(** * Statements used by Props.v *)
+
+Lemma accept_iff_spec d ip :
+  bytes_ok d = true -> ((exists v, inbound_datagram_check d ip = Ok v) <-> SpecAccept d ip).
+Proof.
+  intros OK. destruct (check_iff_spec_lemma d ip OK) as [[H1 H2] H3]. split.
+  - intros (v & Hv). apply H1. rewrite Hv. f_equal. apply H3, Hv.
+  - intros S. eexists. apply H2, S.
+Qed.
+
+Lemma accepted_is_packet d ip v :
+  bytes_ok d = true -> inbound_datagram_check d ip = Ok v -> v = spec_packet d.
+Proof. intros OK. apply (proj2 (check_iff_spec_lemma d ip OK)). Qed.
+
+Lemma no_alias_lemma n raw :
+  n <> 0 -> n <> 3 -> match host_addr_decode n raw with Some w => host_ip w | None => None end = None.
+Proof.
+  intros H0 H3. fold (decode_ip n raw). destruct (decode_ip n raw) as [a|] eqn:E; [|reflexivity].
+  apply decode_ip_some in E. change HAT_IPV4 with 0 in E. change HAT_IPV6 with 3 in E. lia.
+Qed.
+
+Lemma no_alias_datagram d ip v :
+  bytes_ok d = true -> inbound_datagram_check d ip = Ok v ->
+  (spec_src_tl d = 0 /\ exists o, ip = IPv4 o /\ length o = 4%nat) \/
+  (spec_src_tl d = 3 /\ exists o, ip = IPv6 o /\ length o = 16%nat).
+Proof.
+  intros OK H. rewrite check_is_nf in H. unfold check_nf in H.
+  destruct (hl_nf d) as [l| |] eqn:E; try discriminate.
+  destruct (hl_nf_ok d l E) as ((H1 & H2 & H3 & _) & _).
+  destruct (decode_ip _ _) as [a|] eqn:D; [|discriminate].
+  destruct (ip_eqb a ip) eqn:Q; cbn [negb] in H; [|discriminate].
+  apply decode_ip_some in D. change (spec_src_tl d) with (f_sn d).
+  change HAT_IPV4 with 0 in D. change HAT_IPV6 with 3 in D.
+  assert (LE : forall x y, list_eqb N.eqb x y = true -> length x = length y).
+  { induction x as [|a0 x IH]; intros [|b0 y] Hxy; cbn in Hxy; try discriminate; [reflexivity|].
+    apply andb_prop in Hxy. cbn [length]. f_equal. apply IH, (proj2 Hxy). }
+  destruct D as [(Dn & Dl & ->)|(Dn & Dl & ->)]; destruct ip as [o|o]; cbn [ip_eqb] in Q; try discriminate.
+  - left. split; [exact Dn|]. exists o. split; [reflexivity|]. apply LE in Q. unfold blen in Dl. lia.
+  - right. split; [exact Dn|]. exists o. split; [reflexivity|]. apply LE in Q. unfold blen in Dl. lia.
+Qed.
+
+Lemma effects_shape local d from l :
+  gateway_inbound local d from = Ok l ->
+  (exists v, inbound_datagram_check d from = Ok v /\ l = [Dispatched v]) \/
+  (exists e, inbound_datagram_check d from = Err e /\ ((exists r, l = [Sent r]) \/ l = [])).
+Proof.
+  unfold gateway_inbound. destruct (inbound_datagram_check d from) as [v|e|s]; try discriminate.
+  - intros H. inversion H. left. eauto.
+  - intros H. right. exists e. split; [reflexivity|].
+    destruct (inbound_scmp_error e) as [[[c p] off]| |]; try discriminate.
+    destruct (encode_scmp_reply local from c p off) as [b| |]; try discriminate; inversion H; eauto.
+Qed.
+
+Lemma one_effect_lemma local d from l :
+  bytes_ok d = true -> gateway_inbound local d from = Ok l ->
+  (length l <= 1)%nat /\
+  (forall v, In (Dispatched v) l -> SpecAccept d from /\ v = spec_packet d /\ l = [Dispatched v]) /\
+  (forall r, In (Sent r) l -> ~ SpecAccept d from /\ l = [Sent r]).
+Proof.
+  intros OK H. destruct (effects_shape _ _ _ _ H) as [(v & Hc & ->)|(e & Hc & [(r & ->)| ->])].
+  - split; [cbn; lia|]. split.
+    + intros v' [Hv|[]]. inversion Hv; subst v'. split; [apply (accept_iff_spec d from OK); eauto|].
+      split; [eapply accepted_is_packet; eauto|reflexivity].
+    + intros r [Hr|[]]. discriminate.
+  - split; [cbn; lia|]. split.
+    + intros v [Hv|[]]. discriminate.
+    + intros r' [Hr|[]]. inversion Hr; subst r'. split; [|reflexivity].
+      intros S. apply (accept_iff_spec d from OK) in S. destruct S as (v & Hv). congruence.
+  - split; [cbn; lia|]. split; intros x [].
+Qed.
+
+Lemma exactly_one_lemma local d from :
+  bytes_ok d = true -> ip_wf local = true -> ip_wf from = true ->
+  (SpecAccept d from /\ gateway_inbound local d from = Ok [Dispatched (spec_packet d)]) \/
+  (~ SpecAccept d from /\ exists r, gateway_inbound local d from = Ok [Sent r]).
+Proof.
+  intros OK Wl Wf. destruct (gateway_total local d from OK Wl Wf) as [(v & Hc & Hg)|(e & r & Hc & Hg)].
+  - left. split; [apply (accept_iff_spec d from OK); eauto|].
+    rewrite Hg. rewrite (accepted_is_packet d from v OK Hc). reflexivity.
+  - right. split; [|eauto]. intros S. apply (accept_iff_spec d from OK) in S. destruct S as (v & Hv). congruence.
+Qed.
